@@ -5,6 +5,9 @@ import PanderaModel.Props.C06
 #print axioms Pandera.C06.raising_check_is_one_error
 #print axioms Pandera.C06.parse_never_crashes
 #print axioms Pandera.C06.validate_channel
+#print axioms Pandera.C06.validate_never_crashes
+#print axioms Pandera.C06.raised_errors_are_the_collected_ones
+#print axioms Pandera.C06.returns_only_without_errors
 #print axioms Pandera.C06.fault_restores_component_attrs
 #print axioms Pandera.C06.fault_restores_regex_name
 #print axioms Pandera.C06.fault_restores_config
